@@ -12,13 +12,20 @@ namespace TV.Own
 
 inductive OutKind where
   | sparse | dense | scalar
+  /-- two compressed levels with stored entries: pos, crd, pos, crd, vals -/
+  | sparse2
+  /-- two compressed levels, empty result: the kernel's final `realloc(crd, 0)` leaves both crd arrays
+  NULL, so the struct owns pos, pos, vals -/
+  | sparse2empty
   deriving DecidableEq, Repr, Inhabited
 
-/-- number of arrays the evaluate kernel mallocs for an output of this kind (one compressed level) -/
+/-- number of non-NULL arrays the evaluate kernel hands back for an output of this kind -/
 def OutKind.arrays : OutKind → Nat
   | .sparse => 3
   | .dense => 1
   | .scalar => 1
+  | .sparse2 => 5
+  | .sparse2empty => 3
 
 inductive Op where
   | eval (x : Nat) (k : OutKind)
